@@ -42,7 +42,19 @@ impl TomlConverter {
     fn convert_list(&self, items: &[Rc<Val>]) -> Result {
         let mut v = Vec::new();
         for val in items.iter() {
-            v.push(self.convert_value(val)?);
+            let item = self.convert_value(val)?;
+            // The [[name]] sections that hold the tables of an array need
+            // the array to be the value of a key. An array of tables inside
+            // another array has no such form in the serializer.
+            if let toml::Value::Array(inner) = &item {
+                if inner.iter().any(|i| i.is_table()) {
+                    let err = SimpleError::new(
+                        "Lists of lists that contain tuples are not allowed in Toml Conversions!",
+                    );
+                    return Err(Box::new(err));
+                }
+            }
+            v.push(item);
         }
         // The serializer writes tables in an array as [[name]] sections and
         // has no way to do that next to plain values. What it writes for
